@@ -53,8 +53,17 @@ def classify_record(atoms, params=None):
             reg = captured.get("region")
             rec["region_known"] = True
             if reg is not None:
+                dirs = reg.get_connected_directions()
                 rec["region"] = {"has": True, "nbasis": int(len(reg.get_basis_indices())), "is2d": bool(reg.is_2d),
-                                 "nconn": int(np.sum(reg.get_connected_directions()))}
+                                 "nconn": int(np.sum(dirs))}
+                # the search graph of the region, for the binding of Region.tla (TraceRegion)
+                try:
+                    G = reg._search_graph
+                    rec["graph"] = {"edges": [[[int(x) for x in u], [int(x) for x in v], [int(x) for x in d["multiplier"]]]
+                                              for u, v, d in G.edges(data=True)][:6000],
+                                    "code_dirs": [bool(x) for x in dirs], "n_units": int(len(reg))}
+                except Exception:
+                    pass
         try:
             rec["cls_again"] = type(Classifier(**params).classify(atoms)).__name__
         except Exception as e:
@@ -91,3 +100,35 @@ def execute_c17(job):
     rec = classify_record(atoms, params)
     rec.update({"kind": kind, "desc": desc, "params": {k: str(v) for k, v in params.items()}})
     return rec
+
+
+def region_layer(run, recs, d, expect_rank):
+    """Binding of Region.tla: winding directions recomputed by TLC from the recorded search graphs."""
+    import os
+
+    from . import tlc
+    from .common import dump_ndjson
+
+    sub = []
+    for r in recs:
+        g = r.get("graph")
+        if not g or not g["edges"]:
+            continue
+        sub.append({"tid": len(sub) + 1, "edges": g["edges"], "code_dirs": g["code_dirs"], "expect_rank": expect_rank(r), "src": r["tid"]})
+    if not sub:
+        return
+    tp = os.path.join(d, "region.ndjson")
+    dump_ndjson(tp, sub)
+    res = tlc.run("TraceRegion.tla", "TraceRegion.cfg", env={"TRACE_FILE": tp}, must_pass=False, timeout=1200)
+    if res.error or res.distinct != 2 * len(sub):
+        run.model_drift("TraceRegion could not be evaluated: %s" % (res.error or "records not consumed"))
+        return
+    run.add_model(res, "TraceRegion: %d recorded search graphs (winding directions recomputed in the spec)" % len(sub))
+    info = 0
+    for tid, clause in res.printed("FAIL"):
+        if clause.startswith("INFO"):
+            info += 1
+        else:
+            run.model_drift("%s on the region of record %d" % (clause, sub[tid - 1]["src"]))
+    run.notes["regions_bound_to_Region_tla"] = len(sub)
+    run.notes["regions_whose_winding_rank_differs_from_expected"] = info
